@@ -18,7 +18,7 @@ func init() {
 	register(&Property{
 		ID:          "C08",
 		Run:         runC08,
-		Explanation: "Decides the structural clauses of exact record accounting: (R1) the parallel arrays of funnel.Batch stay aligned — whoever re-assigns one re-assigns all, every constructor sets them together, sub-batches and clones never alias the parent's backing arrays; (R2) index-shifting marks (Filter/SplitRecord/Nack/SetRecords/Retry) are applied end→start (descending induction variable); (R4 = C04.R4) the tainted loop's span is captured before any task can grow the sub-batch; (R5) the v1 processor node forwards a record only on the position-unchanged edge; (R6) every type switch over the sealed ProcessedRecord interface covers all its implementors and nil or refuses in default; (R7 = C01.R7) split runs are withheld until complete; (R8) every position slice that reaches Source.Ack in v2 comes from originalBatch() and the split run is keyed on Batch.positions.",
+		Explanation: "Decides the structural clauses of exact record accounting: (R1) the parallel arrays of funnel.Batch stay aligned — whoever re-assigns one re-assigns all, every constructor sets them together, sub-batches and clones never alias the parent's backing arrays; (R2) index-shifting marks (Filter/SplitRecord/Nack/SetRecords/Retry) are applied end→start (descending induction variable); (R4 = C04.R4) the tainted loop's span is captured before any task can grow the sub-batch; (R5) the v1 processor node forwards a record only on the position-unchanged edge; (R6) every type switch over the sealed ProcessedRecord interface covers all its implementors and nil or refuses in default; (R7 = C01.R7) split runs are withheld until complete; (R8) every position slice that reaches Source.Ack in v2 comes from originalBatch() and the split run is keyed on Batch.positions. Rules added later (after independent seeded changes and defect hunts) are not all enumerated here: every armed rule is listed with its description, kind and instance count under coverage.rules.",
 		NotDecided:  []string{"the index arithmetic itself (activeRecordIndices, findTo, SetRecords, setFlag*) — run-time values", "what a later stage does to an already filtered record beyond the flag bookkeeping"},
 		Assumptions: []string{"slices.Clone/Clip and three-index slices cap capacity as documented"},
 	})
